@@ -803,13 +803,24 @@ impl ReCompiler {
             _ => {}
         }
 
+        // The fixed-length repeat operations step through the input without
+        // backtracking into the repeated term, so they cannot keep track of
+        // what its capturing groups matched in each iteration.
+        let fixed_length = if matches!(ret, Operation::Capture(_))
+            || ret.contains_capturing_expressions()
+        {
+            ret.get_match_length().filter(|match_length| *match_length == 0)
+        } else {
+            ret.get_match_length()
+        };
+
         if max == 0 {
             Ok(Operation::from(Nothing))
         } else if min == 1 && max == 1 {
             Ok(ret)
         } else if greedy {
             // actually do the quantifier now
-            if let Some(match_length) = ret.get_match_length() {
+            if let Some(match_length) = fixed_length {
                 if match_length > 0 {
                     Ok(Operation::from(GreedyFixed::new(
                         ret,
@@ -827,7 +838,7 @@ impl ReCompiler {
             } else {
                 Ok(Operation::from(Repeat::new(ret, min, max, true)))
             }
-        } else if let Some(match_length) = ret.get_match_length() {
+        } else if let Some(match_length) = fixed_length {
             if match_length > 0 {
                 Ok(Operation::from(ReluctantFixed::new(
                     ret,
